@@ -786,6 +786,26 @@ class TaggedOperation(Operation):
             return NotImplemented
         return TaggedOperation(sub_op, *self.tags)
 
+    def _with_key_path_(self, path: tuple[str, ...]):
+        sub_op = protocols.with_key_path(self.sub_operation, path)
+        if sub_op is NotImplemented:
+            return NotImplemented
+        return TaggedOperation(sub_op, *self.tags)
+
+    def _with_key_path_prefix_(self, prefix: tuple[str, ...]):
+        sub_op = protocols.with_key_path_prefix(self.sub_operation, prefix)
+        if sub_op is NotImplemented:
+            return NotImplemented
+        return TaggedOperation(sub_op, *self.tags)
+
+    def _with_rescoped_keys_(
+        self, path: tuple[str, ...], bindable_keys: frozenset[cirq.MeasurementKey]
+    ):
+        sub_op = protocols.with_rescoped_keys(self.sub_operation, path, bindable_keys)
+        if sub_op is NotImplemented:
+            return NotImplemented
+        return TaggedOperation(sub_op, *self.tags)
+
     def controlled_by(
         self,
         *control_qubits: cirq.Qid,
